@@ -41,16 +41,69 @@ KINDS = {
 }
 
 SIG_DEL = "C37/del-collection-attribute/removal-not-persisted"
+SIG_SWAP = "C37/o2m_list/duplicate-displacement-after-move-loses-foreign-key"
 SIG_O2O = "C37/o2o/reassignment-leaves-previous-owner-referencing"
 
 LIST_OPS = ["append", "insert", "setitem", "slice_set", "slice_del", "delitem", "remove", "pop", "extend", "iadd", "clear", "replace", "del_attr", "del_attr"]
+# one-to-many list only: ops whose values overlap the current members (a member twice in the list is a legal intermediate state)
+OVERLAP_OPS = ["slice_set_overlap"] * 5 + ["setitem_member", "swap", "swap", "reverse", "sort"]
+LIST_OPS_O2M = LIST_OPS + OVERLAP_OPS * 2
 SET_OPS = ["add", "discard", "remove", "pop", "update", "ior", "iand", "isub", "ixor", "clear", "replace", "difference_update", "intersection_update",
            "symmetric_difference_update", "del_attr", "del_attr"]
 SCALAR_OPS = ["set", "set", "set", "none", "del"]
 
 
-def _apply_list(coll, L, objs, op, x, y, z, items, n, attr_owner, attr_name):
-    """apply op to real list collection `coll` and model list L (indexes into objs). returns False if the op is skipped"""
+def _apply_list(coll, L, objs, op, x, y, z, items, n, attr_owner, attr_name, others=()):
+    """apply op to real list collection `coll` and model list L (indexes into objs). returns False if the op is skipped.
+    `others`: model lists of the other parents (values may be taken from them when they hold the value exactly once)"""
+    if op == "slice_set_overlap":
+        step = [1, 2, -1, 3, 1, -1, 2][z % 7]
+        rng_ = len(L) + 1
+        starts = [None] + list(range(-rng_, rng_ + 1))
+        sl = slice(starts[x % len(starts)], starts[y % len(starts)], None if step == 1 and z % 2 else step)
+        idx = list(range(*sl.indices(len(L))))
+        elsewhere = [i for o_ in others for i in o_ if o_.count(i) == 1]
+        free = [i for i in range(n) if i not in L and not any(i in o_ for o_ in others)]
+        pool_ = list(L) + elsewhere + free  # members first: most draws overlap the current contents
+        if not pool_:
+            return False
+        k = len(idx) if (step != 1 or z % 3 == 0) else len(items) % 5
+        seq = (list(items) + [x, y, z, x + y, x + z])[:k]
+        vals = [pool_[v % len(pool_)] for v in seq]
+        if z % 5 == 0 and idx:
+            # pure permutation / identity assignment of the slice itself: p.children[::2] = p.children[::2], p.children[::-1] = list(p.children)
+            vals = [L[i] for i in idx]
+            if z % 2:
+                vals.reverse()
+        if step != 1 and len(vals) != len(idx):
+            return False
+        if any(v in elsewhere and (vals.count(v) > 1 or v in L) for v in vals):
+            return False  # a member taken over from another parent enters once (see SIG_SWAP)
+        coll[sl] = [objs[i] for i in vals]
+        L[sl] = vals
+        return True
+    if op == "setitem_member":
+        if len(L) < 1:
+            return False
+        i_, j_ = x % len(L), y % len(L)
+        coll[i_] = coll[j_]
+        L[i_] = L[j_]
+        return True
+    if op == "swap":
+        if len(L) < 2:
+            return False
+        i_, j_ = x % len(L), y % len(L)
+        coll[i_], coll[j_] = coll[j_], coll[i_]
+        L[i_], L[j_] = L[j_], L[i_]
+        return True
+    if op == "reverse":
+        coll.reverse()
+        L.reverse()
+        return True
+    if op == "sort":
+        coll.sort(key=lambda o_: -o_.id if z % 2 else o_.id)
+        L.sort(key=lambda i: -(i + 1) if z % 2 else i + 1)
+        return True
     non = [i for i in range(n) if i not in L]
     new = [i for i in dict.fromkeys(v % n for v in items) if i not in L]
     if op == "append":
@@ -265,6 +318,7 @@ def check(case, ctx):
         persisted_now = [case["start"] == "persisted"]
         fragile = {}  # many-to-many: unflushed removed pair -> the owners whose collection history still records the removal
         lost_del = [False]
+        moved_children = set()  # one-to-many children that changed parent since the last flush
         if case["start"] == "persisted":
             want = {(a_, b_) for a_ in range(na) for b_ in ac[a_]} if not o2o else {(a_, q) for a_, q in enumerate(ap) if q is not None}
             sess.commit()
@@ -341,8 +395,9 @@ def check(case, ctx):
                 load_all()
                 from_a, from_b = real_relation()
                 fragile.clear()
+                moved_children.clear()
                 if from_a != before or from_b != before:
-                    raise Violation(SIG_DEL if lost_del[0] else f"C37/{kind}/reload-differs", f"step {step}: relation before flush {sorted(before)}; reloaded A side {sorted(from_a)}, B side {sorted(from_b)}",
+                    raise Violation((lost_del[0] if isinstance(lost_del[0], str) else SIG_DEL) if lost_del[0] else f"C37/{kind}/reload-differs", f"step {step}: relation before flush {sorted(before)}; reloaded A side {sorted(from_a)}, B side {sorted(from_b)}",
                                     observed=[sorted(from_a), sorted(from_b)], expected=sorted(before))
                 # list order is not persisted: adopt the loaded order
                 if not o2o:
@@ -356,9 +411,24 @@ def check(case, ctx):
                 continue
             if side == "A" and not o2o:
                 fn = _apply_list if ctype == "list" else _apply_set
-                ops = LIST_OPS if ctype == "list" else SET_OPS
+                ops = (LIST_OPS_O2M if kind == "o2m_list" else LIST_OPS) if ctype == "list" else SET_OPS
                 op = ops[op % len(ops)]
                 ai = o % na
+                if op in OVERLAP_OPS and y % 4:
+                    ai = max(range(na), key=lambda j: (len(ac[j]), -j))
+                if kind == "o2m_list" and op in ("append", "insert", "setitem", "slice_set", "extend", "iadd", "replace", "slice_set_overlap") and any(
+                        len(set(ac[j])) != len(ac[j]) for j in range(na) if j != ai):
+                    ctx.info("skipped:adding-while-another-parent-holds-a-member-twice")  # moving that member would remove one occurrence only
+                    continue
+                if kind == "o2m_list" and op in ("slice_set_overlap", "setitem_member", "swap") and any(b in moved_children for b in ac[ai]):
+                    sig = SIG_SWAP
+                    if not case.get("pinned"):
+                        ctx.exclude("overlapping assignment on a list holding a child moved from another parent since the last flush (known finding)")
+                        continue
+                    lost_del[0] = SIG_SWAP
+                if len(set(ac[ai])) != len(ac[ai]) and op in ("pop", "slice_del", "clear"):
+                    ctx.info("skipped:pop/clear/slice-delete-on-a-list-holding-a-member-twice")  # documented exception in the backref dupe check
+                    continue
                 if op == "del_attr" and y % 2:
                     ai = max(range(na), key=lambda j: (len(ac[j]), -j))  # prefer the fullest collection
                 if op == "del_attr" and m2m and any(pr[0] == ai and cr <= {("A", ai)} for pr, cr in fragile.items()):
@@ -370,8 +440,15 @@ def check(case, ctx):
                 a = As[ai]
                 coll = getattr(a, K["acoll"])
                 old = list(ac[ai])
-                if not fn(coll, ac[ai], Bs, op, x, y, z, items, nb, a, K["acoll"]):
+                kw_ = {"others": [ac[j] for j in range(na) if j != ai]} if kind == "o2m_list" else {}
+                if not fn(coll, ac[ai], Bs, op, x, y, z, items, nb, a, K["acoll"], **kw_):
                     continue
+                if op in OVERLAP_OPS:
+                    classes.add("overlap-op")
+                    if set(old) & set(ac[ai]) and op == "slice_set_overlap":
+                        classes.add("slice-assign-overlapping-members")
+                    if len(set(ac[ai])) != len(ac[ai]):
+                        classes.add("member-twice-in-list")
                 if op == "del_attr":
                     classes.add("del-collection-attr")
                     classes.add(f"del-collection-attr:{min(len(old), 2)}{'+' if len(old) >= 2 else ''}-members:{'persistent' if persisted_now[0] else 'pending'}")
@@ -397,6 +474,7 @@ def check(case, ctx):
                     else:
                         if par[b] is not None and par[b] != ai:
                             ac[par[b]].remove(b)
+                            moved_children.add(b)
                             moved = True
                             classes.add("moved-between-parents")
                         par[b] = ai
@@ -449,6 +527,9 @@ def check(case, ctx):
                             continue
                 elif par[bi] is None and op == "del":
                     continue
+                if not o2o and par[bi] is not None and ac[par[bi]].count(bi) > 1:
+                    ctx.info("skipped:scalar-op-on-child-held-twice")  # the backref removes one occurrence only
+                    continue
                 else:
                     tgt = None
                 if op == "del":
@@ -470,6 +551,7 @@ def check(case, ctx):
                         if par[bi] is not None:
                             ac[par[bi]].remove(bi)
                             if tgt is not None:
+                                moved_children.add(bi)
                                 moved = True
                                 classes.add("moved-between-parents")
                         if tgt is not None:
@@ -519,7 +601,7 @@ def check(case, ctx):
         sess.expire_all()
         from_a, from_b = real_relation()
         if from_a != before or from_b != before:
-            raise Violation(SIG_DEL if lost_del[0] else f"C37/{kind}/reload-differs", f"final: relation before flush {sorted(before)}; reloaded A side {sorted(from_a)}, B side {sorted(from_b)}",
+            raise Violation((lost_del[0] if isinstance(lost_del[0], str) else SIG_DEL) if lost_del[0] else f"C37/{kind}/reload-differs", f"final: relation before flush {sorted(before)}; reloaded A side {sorted(from_a)}, B side {sorted(from_b)}",
                             observed=[sorted(from_a), sorted(from_b)], expected=sorted(before))
         rows = _rows(sess, kind, K)
         if rows != before:
@@ -562,7 +644,7 @@ _i = st.integers(0, 11)
 
 @st.composite
 def _programs(draw):
-    kind = draw(st.sampled_from(sorted(KINDS)))
+    kind = draw(st.sampled_from(sorted(KINDS) + ["o2m_list", "o2m_list"]))  # the list one-to-many carries the overlapping-value ops
     side = st.sampled_from(["A", "A", "B"]) if not kind.startswith("m2m") else st.sampled_from(["A", "B"])
     op = st.tuples(side, st.integers(0, 559), _i, _i, _i, _i, st.lists(_i, max_size=4))
     reload_ = st.just(("A", "reload", 0, 0, 0, 0, []))
